@@ -51,7 +51,7 @@ theorem tie_connect (st : State) (e g l s : Nat) (em : Emitter) (li : Listener)
       simp [State.setEmitter, State.setListener, State.bumpNode, Listener.setSigs, hmem, hk, ite_ite_same]
 
 theorem tie_disconnect (st : State) (e g l s : Nat) (em : Emitter) (li : Listener)
-    (he : st.emitters e = some em) (hl : st.listeners l = some li) :
+    (he : st.emitters e = some em) (hl : st.listeners l = some li) (hk : e ∉ li.emKeys → li.sigs e = []) :
     CallbackBody.disconnect st e g l s = disconnect e g l s st := by
   unfold CallbackBody.disconnect
   simp only [isMatch_eq]
@@ -63,19 +63,32 @@ theorem tie_disconnect (st : State) (e g l s : Nat) (em : Emitter) (li : Listene
     have h1 := nf_state he hl
     rw [← setSig_same hd] at h1
     rw [h1]
-    cases hf : d.slots.findIdx? (fun x => x.isMatch l s) with
-    | none =>
-      have hm := findIdx_none_hasMatch l s d.slots hf
-      cases hf2 : (li.sigs e).findIdx? (fun x => x.1 == g && x.2 == s) with
+    by_cases hmem : e ∈ li.emKeys
+    · cases hf : d.slots.findIdx? (fun x => x.isMatch l s) with
       | none =>
-        simp [hf, hf2, disconnect, hd, unlinkOrMark, hm, findIdx_erase_none hf2, ite_self_fn, setListener_setEmitter]
-      | some k2 =>
-        simp [hf, hf2, disconnect, hd, unlinkOrMark, hm, H.lRemove, findIdx_erase_some hf2, setListener_setEmitter]
-    | some k =>
-      obtain ⟨hm, hmark, herase⟩ := findIdx_some_hasMatch l s d.slots k hf
-      cases ha : d.activation <;> cases hf2 : (li.sigs e).findIdx? (fun x => x.1 == g && x.2 == s) <;>
-        simp [hf, hf2, ha, disconnect, hd, unlinkOrMark, hm, hmark, herase, H.lRemove, findIdx_erase_some, findIdx_erase_none,
-          ite_self_fn, setListener_setEmitter] <;> rw [findIdx_erase_some hf2]
+        have hm := findIdx_none_hasMatch l s d.slots hf
+        cases hf2 : (li.sigs e).findIdx? (fun x => x.1 == g && x.2 == s) with
+        | none =>
+          simp [hf, hf2, hmem, disconnect, hd, unlinkOrMark, hm, findIdx_erase_none hf2, ite_self_fn, setListener_setEmitter]
+        | some k2 =>
+          simp [hf, hf2, hmem, disconnect, hd, unlinkOrMark, hm, H.lRemove, findIdx_erase_some hf2, setListener_setEmitter]
+      | some k =>
+        obtain ⟨hm, hmark, herase⟩ := findIdx_some_hasMatch l s d.slots k hf
+        cases ha : d.activation <;> cases hf2 : (li.sigs e).findIdx? (fun x => x.1 == g && x.2 == s) <;>
+          simp [hf, hf2, ha, hmem, disconnect, hd, unlinkOrMark, hm, hmark, herase, H.lRemove, findIdx_erase_some, findIdx_erase_none,
+            ite_self_fn, setListener_setEmitter] <;> rw [findIdx_erase_some hf2]
+    · -- the receiver has no entry for this emitter: `*end()` is the empty list, nothing to erase
+      have hsig := hk hmem
+      have hfn : (fun e' => if e' = e then ([] : List (Nat × Nat)) else li.sigs e') = li.sigs := by
+        have := ite_self_fn li.sigs e; rw [hsig] at this; exact this
+      cases hf : d.slots.findIdx? (fun x => x.isMatch l s) with
+      | none =>
+        have hm := findIdx_none_hasMatch l s d.slots hf
+        simp [hf, hmem, hsig, hfn, disconnect, hd, unlinkOrMark, hm, setListener_setEmitter]
+      | some k =>
+        obtain ⟨hm, hmark, herase⟩ := findIdx_some_hasMatch l s d.slots k hf
+        cases ha : d.activation <;>
+          simp [hf, ha, hmem, hsig, hfn, disconnect, hd, unlinkOrMark, hm, hmark, herase, setListener_setEmitter]
 
 /-- the body of the inner loop of the translated `~Listener` is the model's `dropSlot`, on every state -/
 theorem tie_dropSlot (l e : Nat) (h : State) (x : Nat × Nat) :
@@ -349,7 +362,7 @@ theorem tie_dtorActivation (st : State) (fid : Nat) (f : Frame) (fs : List Frame
         have hpf : ∀ (a : Option Emitter), (st.setEmitter f.data.1 a).popFrame fs.length = (st.popFrame fs.length).setEmitter f.data.1 a := fun _ => rfl
         have he0 : ({ st with frames := fs } : State).emitters f.data.1 = some em := he
         rw [h1]
-        simp (disch := (intro x; cases hx : x.state <;> simp [hx, purgeStep])) only [nf_modData, nf_dirty, filterMap_purge, setEmitter_frames, hpop]
+        simp (disch := (intro x; cases x with | mk r o sl n stt => cases stt <;> simp [purgeStep])) only [nf_modData, nf_dirty, filterMap_purge, setEmitter_frames, hpop]
         rw [← h1]
         simp only [he0, hd]
         cases hn : f.next with
@@ -366,9 +379,9 @@ theorem tie_connectT (st : State) (e g l s : Nat) (em : Emitter) (li : Listener)
 
 /-- the nine `disconnect` templates -/
 theorem tie_disconnectT (st : State) (e g l s : Nat) (em : Emitter) (li : Listener)
-    (he : st.emitters e = some em) (hl : st.listeners l = some li) :
+    (he : st.emitters e = some em) (hl : st.listeners l = some li) (hk : LKeys st) :
     CallbackBody.disconnectT st e g l s = disconnect e g l s st :=
-  tie_disconnect st e g l s em li he hl
+  tie_disconnect st e g l s em li he hl (hk l li e hl)
 
 /-- the translated loop of `emit` from node `j` on, while the activation is not invalidated: the model's search for the next
     `connected` entry -/
